@@ -152,6 +152,11 @@ class Renderer:
             f = _fn(self.spec, it["fn"])
             hmod = self.pkg.replace("vp", "vh").replace("vr", "vh") + "." + f["module"][2:]
             return [f"import {hmod}", f"_{i} = {hmod}.{it['fn']}()"]
+        elif k == "call" and it.get("form") == "local_import_full":
+            # 'import pkg.sub.mod' written inside the function body, the callee named in full
+            f = _fn(self.spec, it["fn"])
+            full = f"{self.pkg}.{f['module']}"
+            return [f"import {full}", f"_{i} = {full}.{it['fn']}()"]
         elif k == "call" and it.get("form") == "local_import":
             # the callee is imported inside the function body, not at module level
             f = _fn(self.spec, it["fn"])
